@@ -385,11 +385,32 @@ fn rand_sockaddr(rng: &mut Rng64) -> SocketAddr {
         let a = if rng.chance(1, 3) { *rng.pick(&[[0u8; 4], [255; 4], [1, 2, 3, 4], [127, 0, 0, 1], [1, 1, 3, 4], [4, 4, 4, 4], [3, 3, 3, 3]]) } else { (rng.next() as u32).to_be_bytes() };
         SocketAddr::new(IpAddr::V4(Ipv4Addr::from(a)), port)
     } else {
+        // special forms matter: IPv4-mapped / IPv4-compatible / NAT64 / 6to4 / loopback / unspecified / multicast
         let mut a = [0u8; 16];
-        if rng.chance(2, 3) {
-            a.copy_from_slice(&rng.bytes(16));
-        } else if rng.chance(1, 2) {
-            a[15] = 1;
+        match rng.below(10) {
+            0 => {
+                a[10] = 0xff;
+                a[11] = 0xff;
+                a[12..].copy_from_slice(&(rng.next() as u32).to_be_bytes());
+            }
+            1 => a[12..].copy_from_slice(&(rng.next() as u32).to_be_bytes()),
+            2 => {
+                a[..4].copy_from_slice(&[0, 0x64, 0xff, 0x9b]);
+                a[12..].copy_from_slice(&(rng.next() as u32).to_be_bytes());
+            }
+            3 => {
+                a[0] = 0x20;
+                a[1] = 0x02;
+                a[2..6].copy_from_slice(&(rng.next() as u32).to_be_bytes());
+            }
+            4 => a[15] = 1,
+            5 => {}
+            6 => {
+                a[0] = 0xff;
+                a[1] = 0x02;
+                a[15] = 1;
+            }
+            _ => a.copy_from_slice(&rng.bytes(16)),
         }
         SocketAddr::new(IpAddr::V6(Ipv6Addr::from(a)), port)
     }
